@@ -170,6 +170,8 @@ func randomConfig(r *core.Rand, s *gstmt, raws []string, others []*gstmt) cspec 
 func run(r *core.Run) {
 	r.Rule = "statements from a grammar (SELECT/INSERT/UPDATE/DELETE/UNION with joins, sub-selects, derived tables, IN lists) rendered in several spellings; patterns derived from the statement by generalising subsets of its literals/columns/lists/sub-selects/WHERE/whole statement; censor configurations = random chains of allow/deny/allowall/denyall/query_ignore/query_capture with query, table and pattern rules built from the statement and from unrelated ones; malformed statements; sessions = interleavings of allowed and denied statements and database completions. Non-trivial: the statement parses (or the case is about parse errors) and the configuration has at least one handler; distinct by (configuration, statement text)."
 	runCorpus(r)
+	runChainOrder(r)
+	runQualified(r)
 	runPatterns(r)
 	runGeneralise(r)
 	runDrops(r)
@@ -399,7 +401,7 @@ func runChains(r *core.Run) {
 			var verdicts []string
 			for _, raw := range raws {
 				r.Begin("chain:"+ct+"|"+raw, len(cfg.hs) > 0, "chain", fmt.Sprintf("handlers:%d", len(cfg.hs)))
-				v := r.Do("C05.handle " + ct + " " + stmtToken(raw))
+				v := handleChecked(r, ct, stmtToken(raw))
 				verdicts = append(verdicts, v)
 				r.Tag("verdict:" + v)
 			}
@@ -410,7 +412,7 @@ func runChains(r *core.Run) {
 			bad := malformedStmt(rnd)
 			bt := stmtToken(bad)
 			r.Begin("chain-bad:"+ct+"|"+bad, len(cfg.hs) > 0, "chain-malformed")
-			v := r.Do("C05.handle " + ct + " " + bt)
+			v := handleChecked(r, ct, bt)
 			if strings.HasSuffix(bt, "/!") && v != "cfgerr" && !cfg.ipe && (len(cfg.hs) > 0 || cfg.log) {
 				r.Check(v == "deny", "unparsed-allowed", "unparseable statement `"+bad+"` allowed without ignore_parse_error under "+ct)
 			}
@@ -435,7 +437,7 @@ func runChains(r *core.Run) {
 		for _, d := range direct {
 			ct := d.cfg.tokens()
 			r.Begin("direct:"+d.name+"|"+ct+"|"+raw, true, "chain-direct", "direct:"+d.name)
-			v := r.Do("C05.handle " + ct + " " + st)
+			v := handleChecked(r, ct, st)
 			switch d.want {
 			case "":
 			case "deny*": // unless the derived pattern is not parseable (then the configuration is rejected)
@@ -478,7 +480,7 @@ func runTables(r *core.Run) {
 		how := s.touches(t)
 		cfg := cspec{hs: []hspec{{kind: "D", tables: []string{t}}}}
 		r.Begin("deny-table:"+t+"|"+raw, true, "deny-table", "table-use:"+how)
-		v := r.Do("C05.handle " + cfg.tokens() + " " + st)
+		v := handleChecked(r, cfg.tokens(), st)
 		switch how {
 		case "top":
 			r.Check(v == "deny", "table-rule-direct", "deny table `"+t+"`, statement uses it at the top level: `"+raw+"` => "+v)
